@@ -95,7 +95,7 @@ class Scratch(object):
 
     def path(self, ext):
         self.n += 1
-        return os.path.join(self.dir, "f%d.%s" % (self.n, ext))
+        return os.path.join(self.dir, "%s%d.%s" % (["f", "_part-", "f", ".f"][self.n % 4], self.n, ext))
 
     def close(self):
         shutil.rmtree(self.dir, ignore_errors=True)
@@ -138,7 +138,8 @@ def _zip_members(z, parts, ext, fmt, rnd):
             for k in range(1, folder.count("/") + 1):
                 z.writestr("/".join(folder.split("/")[:k]) + "/", "")
         seen.add(folder)
-        z.writestr("%sm%d.%s" % (folder, i, ext), serialize(part, fmt, rnd))
+        # (a member is a member whatever its name starts with: '_part-0001.nt', '.m1.nt')
+        z.writestr("%s%s%d.%s" % (folder, rnd.choice(["m", "m", "_part-", ".m"]), i, ext), serialize(part, fmt, rnd))
 
 
 def delivery_kwargs(T, d, sc, rnd, port):
